@@ -220,11 +220,20 @@ def main(mod):
             results.append(_worker(j))
     else:
         ctxmp = multiprocessing.get_context('fork')
+        failfast = os.environ.get('VERIF_FAILFAST', '1') != '0'
         with ctxmp.Pool(min(a.jobs, len(jobs))) as pool:
+            ncex = 0
             for r in pool.imap_unordered(_worker, jobs, chunksize=1):
                 results.append(r)
                 if r['err'] or r['cex']:
                     print('[%s] job %s: %s' % (pid, r['name'], (r['err'] or '%d counterexample(s)' % len(r['cex']))[-1500:]), flush=True)
+                ncex += len(r['cex'])
+                if failfast and ncex and time.time() - t0 > 60 and len(results) < len(jobs):
+                    # counterexamples are in hand and the run is getting long (a change that breaks the property
+                    # often also makes the remaining jobs slow): stop exploring, go on to replay and report
+                    print('[%s] counterexamples found; remaining %d jobs cancelled' % (pid, len(jobs) - len(results)), flush=True)
+                    pool.terminate()
+                    break
     # ---- aggregate
     stats = Counter()
     solver_time = 0.0
